@@ -111,7 +111,9 @@ func StatusVector(c *rtcp.StatusVectorChunk) V {
 }
 
 func Delta(d *rtcp.RecvDelta) V {
-	return V{"t": int(d.Type), "ticks": small(d.Delta / 250), "rem": small(d.Delta % 250)}
+	q := d.Delta / 250
+	lo := int64(int32(q)) // low 32 bits of the tick count, signed
+	return V{"t": int(d.Type), "ticks": small(lo), "rem": small(d.Delta % 250), "big": small((q - lo) >> 32)}
 }
 
 func chunk(c rtcp.PacketStatusChunk) V {
@@ -450,7 +452,11 @@ func BuildChunk(x any) rtcp.PacketStatusChunk {
 
 func BuildDelta(x any) *rtcp.RecvDelta {
 	m := rec(x)
-	return &rtcp.RecvDelta{Type: uint16(I(m["t"])), Delta: 250*int64(I(m["ticks"])) + int64(I(m["rem"]))}
+	big := int64(0)
+	if b, ok := m["big"]; ok {
+		big = int64(I(b))
+	}
+	return &rtcp.RecvDelta{Type: uint16(I(m["t"])), Delta: 250*(int64(I(m["ticks"]))+big<<32) + int64(I(m["rem"]))}
 }
 
 func buildXRBlock(x any) rtcp.ReportBlock {
@@ -462,37 +468,40 @@ func buildXRBlock(x any) rtcp.ReportBlock {
 		}
 		return out
 	}
+	// XRHeader of the defined block kinds is recomputed by every Marshal and is not part of the
+	// value: give it arbitrary non-zero content, as a caller reusing a struct would leave it
+	junk := rtcp.XRHeader{BlockType: 0x55, TypeSpecific: 0xFF, BlockLength: 0x1234}
 	switch m["bt"] {
 	case "lrle":
-		return &rtcp.LossRLEReportBlock{T: uint8(I(m["t"])), SSRC: GoU32(m["ssrc"]), BeginSeq: uint16(I(m["bs"])), EndSeq: uint16(I(m["es"])), Chunks: chunks(m["chunks"])}
+		return &rtcp.LossRLEReportBlock{XRHeader: junk, T: uint8(I(m["t"])), SSRC: GoU32(m["ssrc"]), BeginSeq: uint16(I(m["bs"])), EndSeq: uint16(I(m["es"])), Chunks: chunks(m["chunks"])}
 	case "drle":
-		return &rtcp.DuplicateRLEReportBlock{T: uint8(I(m["t"])), SSRC: GoU32(m["ssrc"]), BeginSeq: uint16(I(m["bs"])), EndSeq: uint16(I(m["es"])), Chunks: chunks(m["chunks"])}
+		return &rtcp.DuplicateRLEReportBlock{XRHeader: junk, T: uint8(I(m["t"])), SSRC: GoU32(m["ssrc"]), BeginSeq: uint16(I(m["bs"])), EndSeq: uint16(I(m["es"])), Chunks: chunks(m["chunks"])}
 	case "prt":
-		return &rtcp.PacketReceiptTimesReportBlock{T: uint8(I(m["t"])), SSRC: GoU32(m["ssrc"]), BeginSeq: uint16(I(m["bs"])), EndSeq: uint16(I(m["es"])), ReceiptTime: GoU32s(m["times"])}
+		return &rtcp.PacketReceiptTimesReportBlock{XRHeader: junk, T: uint8(I(m["t"])), SSRC: GoU32(m["ssrc"]), BeginSeq: uint16(I(m["bs"])), EndSeq: uint16(I(m["es"])), ReceiptTime: GoU32s(m["times"])}
 	case "rrt":
-		return &rtcp.ReceiverReferenceTimeReportBlock{NTPTimestamp: GoU64(m["ntp"])}
+		return &rtcp.ReceiverReferenceTimeReportBlock{XRHeader: junk, NTPTimestamp: GoU64(m["ntp"])}
 	case "dlrr":
 		var rs []rtcp.DLRRReport
 		for _, r := range List(m["reports"]) {
 			rm := rec(r)
 			rs = append(rs, rtcp.DLRRReport{SSRC: GoU32(rm["ssrc"]), LastRR: GoU32(rm["lrr"]), DLRR: GoU32(rm["dlrr"])})
 		}
-		return &rtcp.DLRRReportBlock{Reports: rs}
+		return &rtcp.DLRRReportBlock{XRHeader: junk, Reports: rs}
 	case "ss":
-		return &rtcp.StatisticsSummaryReportBlock{LossReports: B(m["l"]), DuplicateReports: B(m["d"]), JitterReports: B(m["j"]),
+		return &rtcp.StatisticsSummaryReportBlock{XRHeader: junk, LossReports: B(m["l"]), DuplicateReports: B(m["d"]), JitterReports: B(m["j"]),
 			TTLorHopLimit: rtcp.TTLorHopLimitType(I(m["toh"])), SSRC: GoU32(m["ssrc"]), BeginSeq: uint16(I(m["bs"])), EndSeq: uint16(I(m["es"])),
 			LostPackets: GoU32(m["lost"]), DupPackets: GoU32(m["dup"]), MinJitter: GoU32(m["minj"]), MaxJitter: GoU32(m["maxj"]),
 			MeanJitter: GoU32(m["meanj"]), DevJitter: GoU32(m["devj"]), MinTTLOrHL: uint8(I(m["mint"])), MaxTTLOrHL: uint8(I(m["maxt"])),
 			MeanTTLOrHL: uint8(I(m["meant"])), DevTTLOrHL: uint8(I(m["devt"]))}
 	case "voip":
-		return &rtcp.VoIPMetricsReportBlock{SSRC: GoU32(m["ssrc"]), LossRate: uint8(I(m["lr"])), DiscardRate: uint8(I(m["dr"])),
+		return &rtcp.VoIPMetricsReportBlock{XRHeader: junk, SSRC: GoU32(m["ssrc"]), LossRate: uint8(I(m["lr"])), DiscardRate: uint8(I(m["dr"])),
 			BurstDensity: uint8(I(m["bd"])), GapDensity: uint8(I(m["gd"])), BurstDuration: uint16(I(m["bdur"])), GapDuration: uint16(I(m["gdur"])),
 			RoundTripDelay: uint16(I(m["rtd"])), EndSystemDelay: uint16(I(m["esd"])), SignalLevel: uint8(I(m["sl"])), NoiseLevel: uint8(I(m["nl"])),
 			RERL: uint8(I(m["rerl"])), Gmin: uint8(I(m["gmin"])), RFactor: uint8(I(m["rf"])), ExtRFactor: uint8(I(m["erf"])),
 			MOSLQ: uint8(I(m["moslq"])), MOSCQ: uint8(I(m["moscq"])), RXConfig: uint8(I(m["rxc"])),
 			JBNominal: uint16(I(m["jbn"])), JBMaximum: uint16(I(m["jbm"])), JBAbsMax: uint16(I(m["jba"]))}
 	case "unk":
-		return &rtcp.UnknownReportBlock{XRHeader: rtcp.XRHeader{BlockType: rtcp.BlockTypeType(I(m["type"])), TypeSpecific: rtcp.TypeSpecificField(I(m["ts"]))}, Bytes: GoBytes(m["bytes"])}
+		return &rtcp.UnknownReportBlock{XRHeader: rtcp.XRHeader{BlockType: rtcp.BlockTypeType(I(m["type"])), TypeSpecific: rtcp.TypeSpecificField(I(m["ts"])), BlockLength: junk.BlockLength}, Bytes: GoBytes(m["bytes"])}
 	}
 	panic(fmt.Sprintf("abs: unknown XR block %v", x))
 }
